@@ -82,6 +82,7 @@ type Contract struct {
 	NoSafety   bool                 // the zero-annotation no-panic sweep is not run for this function (recorded in Assumed)
 	UseScen    map[string]string    // scenario contracts: at calls of <callee>, the scenario contract <callee>@<name> is applied instead of the plain one
 	CbSkip     string               // scenario contracts: every dynamically called function value ends by a skip (panic invalidData) - the hypothesis, quoted
+	NoStore    *Clause              // store frame: struct types no field of which the body (and its literals) stores to (Src = comma-separated type names)
 	Globals    *Clause              // global frame: the only package-level variables of the package the body (and its literals) may mention (Src = comma-separated names)
 	Captures   *Clause              // closures: the only variables the function literal may capture (Src = comma-separated names)
 	StoreAnns  map[string][]*Clause // "after-store <global> assert e": checked right after the package variable is assigned
@@ -394,6 +395,11 @@ func (ss *SpecSet) parseFile(path string, dep bool) error {
 			case "callbacks-skip":
 				cur.CbSkip = strings.Trim(strings.TrimSpace(rest), `"`)
 				cur.Assumed = append(cur.Assumed, "scenario hypothesis of "+cur.Key+": every function value it calls ends by a skip ("+cur.CbSkip+")")
+			case "nostore":
+				// nostore [tags] T1, T2: the function's own body and its function literals contain no store to a field of
+				// these struct types (decided on the SSA; also checked for a trusted contract)
+				tags, body := parseTags(rest)
+				cur.NoStore = &Clause{Kind: "nostore", Tags: tags, Src: body, Line: ln + 1, File: path}
 			case "globals":
 				// globals [tags] a, b | nothing: the package-level variables of the package under verification that the
 				// function's own body and its function literals may mention at all (read, write or address)
@@ -637,6 +643,9 @@ func (c *Contract) hasTag(tag string) bool {
 		return true
 	}
 	if c.Globals != nil && clauseHasTag(c.Globals, tag) {
+		return true
+	}
+	if c.NoStore != nil && clauseHasTag(c.NoStore, tag) {
 		return true
 	}
 	if len(c.FrameOnly) > 0 && contains(c.FrameTags, tag) {
